@@ -776,6 +776,133 @@ def sec_treegen(m):
     return lines
 
 
+# ---------------------------------------------------------------------------
+# C08: the loop skeleton of the two filter scans (Node.filter._visit and
+# Node._add_filtered._visit): statements before the chain of tests on `res`,
+# the chain itself (test -> actions), statements after it, statements after
+# the loop.  Tolerant by design: anything unknown becomes FaOther / FtOther
+# (the obligation in Properties/C08.v then fails, nothing else does).
+_F_ACTS = {
+    "_visit(n)": "FaVisit",
+    "must_keep = True": "FaKeep",
+    "remove_nodes.append(n)": "FaRemove",
+    "n.remove_children()": "FaRemoveChildren",
+    "stopped = True": "FaStop",
+    "raise res": "FaRaise",
+    "p = _create_parents()": "FaParents",
+    "p.add_child(n)": "FaAddChild",
+    "p._add_from(n)": "FaAddFrom",
+    "res = call_predicate(predicate, n)": "FaCallPredicate",
+    "parent_stack.append((False, n))": "FaPush",
+    "parent_stack.pop()": "FaPop",
+    "return must_keep": "FaReturnMustKeep",
+    "return": "FaReturn",
+    "remove_nodes = []": "FaInitRemove",
+    "must_keep = False": "FaInitKeep",
+    "nonlocal stopped": "FaNonlocal",
+}
+_F_COMPOUND = {
+    "if _visit(n):\n    must_keep = True\nelse:\n    remove_nodes.append(n)": "FaVisitKeepOrRemove",
+    "if stopped:\n    remove_nodes.append(n)\n    continue": "FaGuardStopped",
+    "for n in remove_nodes:\n    n.remove()": "FaRemoveCollected",
+}
+
+
+def _f_act(stmt):
+    if isinstance(stmt, ast.Expr) and isinstance(stmt.value, ast.Constant) and isinstance(stmt.value.value, str):
+        return None  # doc string
+    try:
+        src = ast.unparse(stmt)
+    except Exception:  # noqa: BLE001
+        return "FaOther"
+    return _F_ACTS.get(src) or _F_COMPOUND.get(src) or "FaOther"
+
+
+def _f_acts(stmts):
+    return [a for a in (_f_act(x) for x in stmts) if a]
+
+
+def _f_test(t):
+    try:
+        src = ast.unparse(t)
+    except Exception:  # noqa: BLE001
+        return "FtOther"
+    return {"res in (None, False)": "FtNoneFalse", "res is True": "FtIsTrue",
+            "isinstance(res, SelectBranch)": "FtSelect", "isinstance(res, SkipBranch)": "FtSkip",
+            "isinstance(res, StopTraversal)": "FtStop"}.get(src, "FtOther")
+
+
+def filter_skeleton(outer):
+    """(pre-loop, prologue, chain, epilogue, post-loop) of the inner _visit of `outer`; all empty if not found."""
+    empty = ([], [], [], [], [])
+    if outer is None:
+        return empty
+    visit = next((n for n in outer.body if isinstance(n, ast.FunctionDef) and n.name == "_visit"), None)
+    if visit is None:
+        return empty
+    k = next((i for i, n in enumerate(visit.body) if isinstance(n, ast.For)), None)
+    if k is None:
+        return empty
+    loop = visit.body[k]
+    j = next((i for i, n in enumerate(loop.body) if isinstance(n, ast.If) and any(
+        isinstance(x, ast.Name) and x.id == "res" for x in ast.walk(n.test))), None)
+    if j is None:
+        return empty
+    chain = []
+    node = loop.body[j]
+    while True:
+        tst = _f_test(node.test)
+        body = node.body
+        if tst == "FtSkip" and len(body) == 1 and isinstance(body[0], ast.If) and ast.unparse(body[0].test) == "res.and_self is False":
+            chain.append(("FtSkipKeepSelf", _f_acts(body[0].body)))
+            chain.append(("FtSkipOther", _f_acts(body[0].orelse)))
+        else:
+            chain.append((tst, _f_acts(body)))
+        if len(node.orelse) == 1 and isinstance(node.orelse[0], ast.If):
+            node = node.orelse[0]
+            continue
+        if node.orelse:
+            chain.append(("FtOther", _f_acts(node.orelse)))
+        break
+    return (_f_acts(visit.body[:k]), _f_acts(loop.body[:j]), chain, _f_acts(loop.body[j + 1:]), _f_acts(visit.body[k + 1:]))
+
+
+def _opt_func(scope, name):
+    if scope is None:
+        return None
+    return next((n for n in scope.body if isinstance(n, ast.FunctionDef) and n.name == name), None)
+
+
+def filter_facts(lines):
+    try:
+        node_mod = parse("node.py")
+        ncls = next((n for n in node_mod.body if isinstance(n, ast.ClassDef) and n.name == "Node"), None)
+    except Exception:  # noqa: BLE001
+        ncls = None
+    lines.append("")
+    lines.append("Inductive ftest := FtNoneFalse | FtIsTrue | FtSelect | FtSkip | FtSkipKeepSelf | FtSkipOther | FtStop | FtOther.")
+    lines.append("Inductive fact := FaVisit | FaKeep | FaRemove | FaRemoveChildren | FaStop | FaRaise | FaParents | FaAddChild "
+                 "| FaAddFrom | FaCallPredicate | FaPush | FaPop | FaReturnMustKeep | FaReturn | FaInitRemove | FaInitKeep "
+                 "| FaNonlocal | FaVisitKeepOrRemove | FaGuardStopped | FaRemoveCollected | FaOther.")
+
+    def acts(a):
+        return "[" + "; ".join(a) + "]"
+
+    for nm, fn in (("INPLACE", _opt_func(ncls, "filter")), ("COPY", _opt_func(ncls, "_add_filtered"))):
+        pre, pro, chain, epi, post = filter_skeleton(fn)
+        lines.append(f"Definition FILTER_{nm}_PRELOOP : list fact := {acts(pre)}.")
+        lines.append(f"Definition FILTER_{nm}_PROLOGUE : list fact := {acts(pro)}.")
+        lines.append(f"Definition FILTER_{nm}_CHAIN : list (ftest * list fact) := [" +
+                     "; ".join(f"({t}, {acts(a)})" for t, a in chain) + "].")
+        lines.append(f"Definition FILTER_{nm}_EPILOGUE : list fact := {acts(epi)}.")
+        lines.append(f"Definition FILTER_{nm}_POSTLOOP : list fact := {acts(post)}.")
+
+def sec_filter(m):
+    lines = []
+    filter_facts(lines)
+    return lines
+
+
 def sec_lock(m):
     tree, typed, fs, dot = m["tree"], m["typed"], m["fs"], m["dot"]
     tcls = class_def(tree, "Tree")
@@ -823,6 +950,7 @@ SECTIONS = [
     ("EXPORT", sec_export, ["mermaid", "dot"]),
     ("TRAVERSE", sec_traverse, ["node"]),
     ("TREEGEN", sec_treegen, []),
+    ("FILTER", sec_filter, []),
     ("LOCK", sec_lock, ["tree", "typed", "fs", "dot", "node"]),
 ]
 FILES = dict(common="common.py", tree="tree.py", typed="typed_tree.py", fs="fs.py", diff="diff.py", mermaid="mermaid.py",
